@@ -1,6 +1,7 @@
 package checks
 
 import (
+	"encoding/hex"
 	"fmt"
 	"net/url"
 	"strings"
@@ -67,6 +68,38 @@ func failingOp(c c13Case) (obs, bad string) {
 		case "ParseOTPAuthURL-badperiod":
 			u, _ := url.Parse("otpauth://totp/I:a?secret=" + url.QueryEscape(c.Secret) + "&period=-5")
 			_, err = otp.ParseOTPAuthURL(u)
+		case "ParseOTPAuthURL-nolabelcolon":
+			u, _ := url.Parse("otpauth://totp/alice@example.com?secret=" + url.QueryEscape(c.Secret) + "&issuer=Example")
+			_, err = otp.ParseOTPAuthURL(u)
+		case "ParseOTPAuthURL-emptylabel":
+			u, _ := url.Parse("otpauth://hotp/?secret=" + url.QueryEscape(c.Secret))
+			_, err = otp.ParseOTPAuthURL(u)
+		case "ParseOTPAuthURL-nopath":
+			u, _ := url.Parse("otpauth://totp?secret=" + url.QueryEscape(c.Secret))
+			_, err = otp.ParseOTPAuthURL(u)
+		case "ParseOTPAuthURL-badscheme":
+			u, _ := url.Parse("https://totp/I:a?secret=" + url.QueryEscape(c.Secret))
+			_, err = otp.ParseOTPAuthURL(u)
+		case "ParseOTPAuthURL-secret-in-label":
+			u, _ := url.Parse("otpauth://xotp/" + url.PathEscape(c.Secret) + "?secret=" + url.QueryEscape(c.Secret) + "&digits=x&period=y&algorithm=z")
+			_, err = otp.ParseOTPAuthURL(u)
+		case "ParseOTPAuthURL-hugedigits":
+			u, _ := url.Parse("otpauth://totp/I:a?secret=" + url.QueryEscape(c.Secret) + "&digits=99999999999999999999")
+			_, err = otp.ParseOTPAuthURL(u)
+		case "HexInputToOCRA-bad":
+			_, err = otp.HexInputToOCRA("zz", hex.EncodeToString(key), "", "", "")
+		case "NewSuite-bad":
+			_, err = otp.NewSuite(otp.SuiteConfig{Raw: c.Secret, Digits: 3})
+		case "ValidateOCRA-badinput":
+			su, _ := otp.NewRawSuite("OCRA-1:HOTP-SHA1-6:QN08")
+			_, err = otp.ValidateOCRA(c.Secret, "123456", su, otp.OCRAInput{Challenge: []byte{1}})
+			accepted = nil
+		case "ValidateTOTP-badskew":
+			_, err = otp.ValidateTOTP(c.Secret, "123456", t, &otp.Param{Digits: 6, Skew: 11, Period: 30})
+			accepted = []string{ref.HOTP(key, ref.Step(1111111109, 30), 6, 0)}
+		case "ValidateHOTP-wronglen":
+			_, err = otp.ValidateHOTP(c.Secret, "1234567", 1, nil)
+			accepted = hotpWindow(key, 1, 2, 6, 0)
 		case "ParseOTPAuthURL-badtype":
 			u, _ := url.Parse("otpauth://xotp/I:a?secret=" + url.QueryEscape(c.Secret))
 			_, err = otp.ParseOTPAuthURL(u)
@@ -98,7 +131,7 @@ func c13(r *ev.Run) {
 	if ReplayOnly {
 		return
 	}
-	ops := []string{"DecodeSecret", "GenerateHOTP", "GenerateTOTP", "GenerateOCRA", "GenerateHOTP-baddigits", "GenerateHOTP-badalgo", "GenerateTOTP-badalgo", "GenerateOCRA-badinput", "GenerateOCRA-badsuite", "GenerateTOTPURL-noissuer", "GenerateHOTPURL-noaccount", "ParseOTPAuthURL-baddigits", "ParseOTPAuthURL-badalgo", "ParseOTPAuthURL-badperiod", "ParseOTPAuthURL-badtype"}
+	ops := []string{"DecodeSecret", "GenerateHOTP", "GenerateTOTP", "GenerateOCRA", "GenerateHOTP-baddigits", "GenerateHOTP-badalgo", "GenerateTOTP-badalgo", "GenerateOCRA-badinput", "GenerateOCRA-badsuite", "GenerateTOTPURL-noissuer", "GenerateHOTPURL-noaccount", "ParseOTPAuthURL-baddigits", "ParseOTPAuthURL-badalgo", "ParseOTPAuthURL-badperiod", "ParseOTPAuthURL-badtype", "ParseOTPAuthURL-nolabelcolon", "ParseOTPAuthURL-emptylabel", "ParseOTPAuthURL-nopath", "ParseOTPAuthURL-badscheme", "ParseOTPAuthURL-secret-in-label", "ParseOTPAuthURL-hugedigits", "HexInputToOCRA-bad", "NewSuite-bad", "ValidateOCRA-badinput", "ValidateTOTP-badskew", "ValidateHOTP-wronglen"}
 	var secs []string
 	for _, n := range []int{5, 10, 20, 32, 64} {
 		key := filler(r.Seed, "c13", n)
